@@ -207,8 +207,9 @@ def describe(res, ops):
 
 
 THEOREMS = ("canonical_unique / hash_history_independent (the model's hash depends on the contents only), "
-            "store_load_roundtrip / serialize record codec / migrate_preserves / refreeze_collects_nothing "
-            "(the model preserves contents and hash and charges nothing for an unmodified state); "
+            "store_load_roundtrip / modified_state_store_roundtrip / serialize_deserialize_roundtrip / migrate_preserves / "
+            "refreeze_collects_nothing / collector_counts_exactly_new_data (the model preserves contents and hash, charges "
+            "nothing for an unmodified state and exactly the rebuilt nodes and owned values otherwise); "
             "the implementation disagrees with the model or with the property evaluated directly on it")
 
 
@@ -328,10 +329,9 @@ def run(ctx):
         "theorems are about the functional model (radix tree of Radix.v, annotated tree / record store of Persist.v); "
         "the arena of MutableTrie, Arc/RwLock links and CachedRef::{Disk,Memory,Cached} are tied to it by the "
         "differential correspondence (hash, collected bytes, contents, store / serialised / migrated bytes) only",
-        "serialize/deserialize: the per-record codec is proved; the breadth-first tree round trip is checked by "
-        "running the model's deserialiser on every serialised state of the run (PARTIAL); store_update is proved for "
-        "states consistent with the store, that freeze after modifications of a stored state is consistent again is "
-        "tied by comparing the whole store byte for byte (PARTIAL)",
+        "store_load_roundtrip / modified_state_store_roundtrip assume well-formed stems of the frozen tree (nibbles < 16, "
+        "stem length < 2^32: tree_ok) and a store below 2^64 bytes; serialize_deserialize_roundtrip assumes stems, values and "
+        "node count below 2^32 (the widths of the format)",
         "backing store = in-memory Vec<u8> (BackingStoreStore for Vec<u8>, Loader<&[u8]>); file/OS behaviour, "
         "the FFI store/load callbacks and concurrent use are out of scope",
         "the `slab` crate is replaced by a functional shim with the same LIFO key reuse",
